@@ -1,13 +1,13 @@
 SPECIFICATION Spec
 CONSTANTS
   CertKeys = {"k1","k2","k3"}
-  EncKeys = {"e1","e2"}
+  EncKeys = {"e1"}
   Nonces = {"n1"}
   Tokens = {}
-  AppStates = {}
+  AppStates = {"s1"}
   NodeIds = {"N1"}
-  Enabled = {"Authorize","Remove","Nid","Prev","Rotate"}
-  MaxGen = 3
+  Enabled = {"Authorize","Remove","Nid","Prev","Rotate","Strip"}
+  MaxGen = 2
   CfgSW = FALSE
   CfgNidl = TRUE
 INVARIANTS InvC10
